@@ -18,7 +18,7 @@ Observable: gwf flag, [table_ok flag,] components of host, components of pattern
 import itertools
 import math
 
-from ..coqrun import cN, cbool, clist
+from ..coqrun import cN, cbool, clist, copt
 from ..tok import S
 from ..gen import graphs as G
 
@@ -87,11 +87,34 @@ def _thr(t):
     return DEFAULT_THRESHOLD if t is None else t
 
 
-def _call(H, P, case, cfg):
+STYLES = ("kw", "instance", "hostkw", "enum", "upper", "title", "defaults", "tuple")
+
+
+def _call(H, P, case, cfg, style="kw", engine=None):
+    """One call of the public entry point.  `style` varies HOW the same request is spelled (class vs instance, host/pattern by
+    keyword, strategy as enum member / upper-case / title-case string, options equal to their default omitted, attribute
+    selections as tuples); the request itself is `cfg`."""
     from synkit.Graph.Matcher.subgraph_matcher import SubgraphSearchEngine as SSE
+    from synkit.Synthesis.Reactor.strategy import Strategy
     st, mr, thr, strict, pref = cfg
-    return SSE.find_subgraph_mappings(H, P, node_attrs=list(case["na"]), edge_attrs=list(case["ea"]), strategy=st,
-                                      max_results=mr, strict_cc_count=strict, threshold=thr, pre_filter=pref)
+    na, ea = list(case["na"]), list(case["ea"])
+    if style == "tuple":
+        na, ea = tuple(na), tuple(ea)
+    kw = dict(node_attrs=na, edge_attrs=ea, strategy=st, max_results=mr, strict_cc_count=strict, threshold=thr, pre_filter=pref)
+    if style == "enum":
+        kw["strategy"] = Strategy(st)
+    elif style == "upper":
+        kw["strategy"] = st.upper()
+    elif style == "title":
+        kw["strategy"] = st.title()
+    elif style == "defaults":
+        for k, d in (("strategy", "comp"), ("max_results", None), ("strict_cc_count", True), ("threshold", None), ("pre_filter", False)):
+            if kw[k] == d and (kw[k] is d or k == "strategy"):
+                del kw[k]
+    f = (engine or SSE()).find_subgraph_mappings if style == "instance" or engine is not None else SSE.find_subgraph_mappings
+    if style == "hostkw":
+        return f(pattern=P, host=H, **kw)
+    return f(H, P, **kw)
 
 
 def _mp(m):
@@ -105,22 +128,151 @@ def _snapshot(g):
 
 # ------------------------------------------------------------------ implementation adapter
 
-def impl(case):
+def _comps_obs(g):
     import networkx as nx
+    return S([S(sorted(c)) for c in nx.connected_components(g)])
+
+
+def impl(case):
+    kind = case.get("kind")
+    if kind == "history":
+        return _impl_history(case)
+    if kind == "api":
+        return _impl_api(case)
     from synkit.Graph.Matcher.subgraph_matcher import SubgraphSearchEngine as SSE
     H, P = G.to_nx(case["host"]), G.to_nx(case["pattern"])
     ordered = case.get("vf2") is not None
+    styles = case.get("styles") or ["kw"] * len(case["cfgs"])
     out = []
-    for cfg in case["cfgs"]:
-        r = _call(H, P, case, cfg)
+    for cfg, style in zip(case["cfgs"], styles):
+        r = _call(H, P, case, cfg, style)
         q = SSE._quick_pre_filter(H, P, list(case["na"]), _thr(cfg[2]))
         ms = [_mp(m) for m in r]
         out.append([bool(q), ms if ordered else S(ms)])
-    comps = lambda g: S([S(sorted(c)) for c in nx.connected_components(g)])
-    obs = [comps(H), comps(P), out]
+    obs = [_comps_obs(H), _comps_obs(P), out]
     # leading flags: the model evaluates the input premise gwf of the theorems (and, for ordered cases, the VF2
     # contract monitor table_ok); both must be true
     return [True] + (([True] + obs) if ordered else obs)
+
+
+# ---- call interface: what the user passes is handed over unchanged; the MODEL decides defaults and spellings
+
+def _api_kwargs(call):
+    from synkit.Synthesis.Reactor.strategy import Strategy
+    kw = {}
+    sa = call.get("strategy")
+    if sa is not None:
+        kw["strategy"] = Strategy(sa[1]) if sa[0] == "member" else sa[1]
+    for k in ("max_results", "strict_cc_count", "threshold", "pre_filter"):
+        if k in call:
+            kw[k] = call[k]
+    return kw
+
+
+def _api_call(H, P, case, call):
+    from synkit.Graph.Matcher.subgraph_matcher import SubgraphSearchEngine as SSE
+    try:
+        return SSE.find_subgraph_mappings(H, P, node_attrs=list(case["na"]), edge_attrs=list(case["ea"]), **_api_kwargs(call))
+    except NotImplementedError:
+        return 2
+    except ValueError:
+        return 1
+
+
+def _impl_api(case):
+    H, P = G.to_nx(case["host"]), G.to_nx(case["pattern"])
+    out = []
+    for call in case["calls"]:
+        r = _api_call(H, P, case, call)
+        out.append(r if isinstance(r, int) else [S([_mp(m) for m in r])])
+    return [True, out]
+
+
+# ---- histories: ONE engine object and ONE pair of graph objects shared by all steps of the case
+
+def _edit_nx(g, e):
+    op = e[0]
+    if op == "set_node_attr":
+        g.nodes[e[1]][e[2]] = e[3]
+    elif op == "del_node_attr":
+        g.nodes[e[1]].pop(e[2], None)
+    elif op == "set_edge_attr":
+        g[e[1]][e[2]][e[3]] = e[4]
+    elif op == "add_edge":
+        g.add_edge(e[1], e[2], **e[3])
+    elif op == "remove_edge":
+        g.remove_edge(e[1], e[2])
+    elif op == "add_node":
+        g.add_node(e[1], **e[2])
+    elif op == "remove_node":
+        g.remove_node(e[1])
+    else:
+        raise ValueError(op)
+
+
+def _edit_dict(g, e):
+    """The same edit on the JSON form (used at generation time to compute the snapshot every search step sees)."""
+    op = e[0]
+    nodes, edges = g["nodes"], g["edges"]
+    if op == "set_node_attr":
+        [a for n, a in nodes if n == e[1]][0][e[2]] = e[3]
+    elif op == "del_node_attr":
+        [a for n, a in nodes if n == e[1]][0].pop(e[2], None)
+    elif op == "set_edge_attr":
+        [a for u, v, a in edges if {u, v} == {e[1], e[2]}][0][e[3]] = e[4]
+    elif op == "add_edge":
+        edges.append([e[1], e[2], dict(e[3])])
+    elif op == "remove_edge":
+        g["edges"] = [x for x in edges if {x[0], x[1]} != {e[1], e[2]}]
+    elif op == "add_node":
+        nodes.append([e[1], dict(e[2])])
+    elif op == "remove_node":
+        g["nodes"] = [x for x in nodes if x[0] != e[1]]
+        g["edges"] = [x for x in edges if e[1] not in (x[0], x[1])]
+    else:
+        raise ValueError(op)
+
+
+def _run_history(case):
+    """Run the script on shared objects; returns [(H snapshot graph, P snapshot graph, result list)] per search step."""
+    from synkit.Graph.Matcher.subgraph_matcher import SubgraphSearchEngine as SSE
+    obj = {"host": G.to_nx(case["host"]), "pattern": G.to_nx(case["pattern"])}
+    eng = SSE()
+    results, out = [], []
+    for st in case["steps"]:
+        if st["op"] == "edit":
+            _edit_nx(obj[st["side"]], st["edit"])
+        elif st["op"] == "mutate_result":
+            r = results[st["idx"] % len(results)] if results else None
+            if r is not None:
+                for m in r:
+                    for k in list(m):
+                        m[k] = -1
+                    m[-7] = -7
+                r.append({-1: -1})
+                r.reverse()
+        else:
+            Hh, Pp = (obj["pattern"], obj["host"]) if st.get("swap") else (obj["host"], obj["pattern"])
+            sub = dict(na=st["na"], ea=st["ea"])
+            r = _call(Hh, Pp, sub, st["cfg"], st.get("style", "kw"), engine=eng)
+            results.append(r)
+            out.append((Hh, Pp, [dict(m) for m in r], sub, st["cfg"]))
+    return out
+
+
+def _impl_history(case):
+    from synkit.Graph.Matcher.subgraph_matcher import SubgraphSearchEngine as SSE
+    out = []
+    for Hh, Pp, r, sub, cfg in _run_history(case):
+        # the graphs may have been edited since; the snapshot components / pre-filter verdict of THIS step come from the
+        # step's own snapshot (rebuilt fresh from the JSON form computed at generation time)
+        out.append(S([_mp(m) for m in r]))
+    steps = []
+    for snap, res in zip(case["snaps"], out):
+        H, P = G.to_nx(snap["host"]), G.to_nx(snap["pattern"])
+        q = SSE._quick_pre_filter(H, P, list(snap["na"]), _thr(snap["cfg"][2]))
+        steps.append([True, _comps_obs(H), _comps_obs(P), [[bool(q), res]]])
+    return steps
 
 
 class record_vf2:
@@ -196,9 +348,9 @@ class _Codes:
 def _coq_graph(g, na, ea, codes):
     def nl(n, a):
         hc = a.get("hcount", 0)
-        if isinstance(hc, bool) or not isinstance(hc, int) or hc < 0:
+        if not isinstance(hc, int) or hc < 0:          # bool is an int in Python (True >= False)
             raise TypeError("hcount outside the model domain")
-        return "(%s, %s)" % (clist([cN(codes(a.get(k))) for k in na]), cN(hc))
+        return "(%s, %s)" % (clist([cN(codes(a.get(k))) for k in na]), cN(int(hc)))
 
     def el(u, v, a):
         return clist([cN(codes(a.get(k))) for k in ea])
@@ -210,15 +362,53 @@ def _coq_cfg(cfg):
     return "(Cfg %s %s %s %s %s)" % (cN(STRATS[st]), cN(mr or 0), cN(_thr(thr)), cbool(strict), cbool(pref))
 
 
-def coq_case(case):
+def _coq_pair(host, pattern, na, ea):
     codes = _Codes()
     try:
-        h = _coq_graph(case["host"], case["na"], case["ea"], codes)
-        p = _coq_graph(case["pattern"], case["na"], case["ea"], codes)
+        h = _coq_graph(host, na, ea, codes)
+        p = _coq_graph(pattern, na, ea, codes)
     except TypeError:
         return None
-    if any(u == v for u, v, _ in case["host"]["edges"] + case["pattern"]["edges"]):
+    if any(u == v for u, v, _ in host["edges"] + pattern["edges"]):
         return None
+    return h, p
+
+
+def _coq_sarg(sa):
+    if sa is None:
+        return "SDefault"
+    if sa[0] == "member":
+        return "(SMember %s)" % cN(dict(STRATS, partial=3)[sa[1]])
+    if not all(ord(c) < 128 for c in sa[1]):
+        raise TypeError("non-ASCII strategy string")
+    return "(SStr %s)" % clist([cN(ord(c)) for c in sa[1]])
+
+
+def coq_case(case):
+    kind = case.get("kind")
+    if kind == "history":
+        terms = []
+        for snap in case["snaps"]:
+            hp = _coq_pair(snap["host"], snap["pattern"], snap["na"], snap["ea"])
+            if hp is None:
+                return None
+            terms.append("run_set %s %s %s" % (hp[0], hp[1], clist([_coq_cfg(snap["cfg"])])))
+        return "L %s" % clist(["(%s)" % t for t in terms])
+    hp = _coq_pair(case["host"], case["pattern"], case["na"], case["ea"])
+    if hp is None:
+        return None
+    h, p = hp
+    if kind == "api":
+        try:
+            calls = clist(["(%s, %s, %s, %s, %s)" % (
+                _coq_sarg(c.get("strategy")),
+                copt(cN(c["max_results"])) if c.get("max_results") is not None else "None",
+                copt(cbool(c["strict_cc_count"])) if "strict_cc_count" in c else "None",
+                copt(cN(c["threshold"])) if c.get("threshold") is not None else "None",
+                copt(cbool(c["pre_filter"])) if "pre_filter" in c else "None") for c in case["calls"]])
+        except TypeError:
+            return None
+        return "run_api %s %s %s" % (h, p, calls)
     cfgs = clist([_coq_cfg(c) for c in case["cfgs"]])
     if case.get("vf2") is None:
         return "run_set %s %s %s" % (h, p, cfgs)
@@ -291,10 +481,74 @@ def _estimate_guard(H, P, na, thr):
     return False
 
 
+def _oracle_history(case):
+    """Every search step of the script (shared engine, shared graph objects, edits in place, caller-mutated results) must
+    return what a fresh evaluation of the same request on fresh copies returns, and that fresh evaluation must itself satisfy
+    the property (full oracle on the step's snapshot)."""
+    fails = []
+    try:
+        run = _run_history(case)
+    except Exception as e:
+        return [dict(clause="raises", detail="history: %s: %s" % (type(e).__name__, e))]
+    for i, ((Hh, Pp, r, sub, cfg), snap) in enumerate(zip(run, case["snaps"])):
+        fresh = _call(G.to_nx(snap["host"]), G.to_nx(snap["pattern"]), snap, snap["cfg"])
+        if sorted(sorted(m.items()) for m in r) != sorted(sorted(m.items()) for m in fresh):
+            fails.append(dict(clause="history-step-differs-from-fresh",
+                              detail="step %d cfg=%r na=%r ea=%r: shared objects gave %d maps, fresh evaluation %d"
+                                     % (i, cfg, snap["na"], snap["ea"], len(r), len(fresh))))
+            continue
+        fails += oracle(dict(kind="hist-step", host=snap["host"], pattern=snap["pattern"], na=snap["na"], ea=snap["ea"],
+                             cfgs=[snap["cfg"]], vf2=None))
+    return fails[:3]
+
+
+def _oracle_api(case):
+    """Spelling and defaults: each call must behave as the canonical keyword call it abbreviates (documented defaults:
+    strategy comp, max_results None, strict_cc_count True, threshold None, pre_filter False; strategy strings are
+    case-insensitive; 'partial' is NotImplementedError, anything else ValueError)."""
+    H, P = G.to_nx(case["host"]), G.to_nx(case["pattern"])
+    fails = []
+    names = {"all": "all", "comp": "comp", "bt": "bt", "partial": "partial"}
+    for call in case["calls"]:
+        try:
+            got = _api_call(H, P, case, call)
+        except Exception as e:
+            fails.append(dict(clause="raises", detail="%r: %s: %s" % (call, type(e).__name__, e)))
+            continue
+        sa = call.get("strategy")
+        st = "comp" if sa is None else names.get(sa[1].lower())
+        if st is None or st == "partial":
+            want = 1 if st is None else 2
+            if got != want:
+                fails.append(dict(clause="strategy-spelling", detail="%r: expected error code %d, got %r" % (call, want, got if isinstance(got, int) else len(got))))
+            continue
+        cfg = [st, call.get("max_results"), call.get("threshold"), call.get("strict_cc_count", True), call.get("pre_filter", False)]
+        ref = _call(G.to_nx(case["host"]), G.to_nx(case["pattern"]), case, cfg)
+        if isinstance(got, int) or sorted(sorted(m.items()) for m in got) != sorted(sorted(m.items()) for m in ref):
+            fails.append(dict(clause="call-spelling", detail="%r: differs from the canonical call %r (%s vs %d maps)"
+                              % (call, cfg, got if isinstance(got, int) else len(got), len(ref))))
+    if not fails:
+        cfgs = []
+        for call in case["calls"]:
+            sa = call.get("strategy")
+            st = "comp" if sa is None else names.get(sa[1].lower())
+            if st in STRATS:
+                c = [st, call.get("max_results"), call.get("threshold"), call.get("strict_cc_count", True), call.get("pre_filter", False)]
+                if c not in cfgs:
+                    cfgs.append(c)
+        fails += oracle(dict(kind="api-canon", host=case["host"], pattern=case["pattern"], na=case["na"], ea=case["ea"], cfgs=cfgs, vf2=None))
+    return fails[:3]
+
+
 def oracle(case):
+    if case.get("kind") == "history":
+        return _oracle_history(case)
+    if case.get("kind") == "api":
+        return _oracle_api(case)
     H, P = G.to_nx(case["host"]), G.to_nx(case["pattern"])
     na, ea = list(case["na"]), list(case["ea"])
     fails = []
+    styles = dict((i, st) for i, st in enumerate(case.get("styles") or []))
 
     def bad(clause, detail):
         fails.append(dict(clause=clause, detail=detail))
@@ -332,12 +586,12 @@ def oracle(case):
                 percc.append(sum(len(_brute(H, P, na, ea, hc, pc)) for hc in hcs if len(hc) >= len(pc)))
         return percc
 
-    for cfg in case["cfgs"]:
+    for ci, cfg in enumerate(case["cfgs"]):
         st, mr, thr, strict, pref = cfg
         T = _thr(thr)
-        tag = "cfg=%r" % (cfg,)
+        tag = "cfg=%r style=%s" % (cfg, styles.get(ci, "kw"))
         try:
-            R = _call(H, P, case, cfg)
+            R = _call(H, P, case, cfg, styles.get(ci, "kw"))
             unlimited(st, strict)
             unlimited("all", strict)
         except Exception as e:      # the search must return a list for every input of the domain
@@ -404,7 +658,16 @@ def oracle(case):
 
 # ------------------------------------------------------------------ evidence helpers
 
+def _len(r):
+    return len(r["__set__"]) if isinstance(r, dict) else len(r)
+
+
 def nontrivial(case, obs):
+    kind = case.get("kind")
+    if kind == "api":
+        return any(isinstance(x, list) and _len(x[0]) > 0 for x in obs[1])
+    if kind == "history":
+        return any(_len(step[3][0][1]) > 0 for step in obs)
     o = obs[2:] if case.get("vf2") is not None else obs[1:]
     first = o[2][0][1]
     n = len(first["__set__"]) if isinstance(first, dict) else len(first)
@@ -419,7 +682,21 @@ def distribution(cases, obss):
 
     def inc(t, k):
         t[str(k)] = t.get(str(k), 0) + 1
+    d.update(kinds={}, call_styles={}, history_steps={}, history_ops={}, api_calls=0, api_errors=0)
     for c, obs in zip(cases, obss):
+        inc(d["kinds"], c.get("kind"))
+        for st in c.get("styles") or []:
+            inc(d["call_styles"], st)
+        if c.get("kind") == "history":
+            inc(d["history_steps"], len(c["steps"]))
+            for st in c["steps"]:
+                inc(d["history_ops"], st["op"] if st["op"] != "edit" else "edit:" + st["edit"][0])
+            continue
+        if c.get("kind") == "api":
+            d["api_calls"] += len(c["calls"])
+            if isinstance(obs, list) and len(obs) == 2 and isinstance(obs[1], list):
+                d["api_errors"] += sum(1 for x in obs[1] if isinstance(x, int))
+            continue
         inc(d["host_nodes"], len(c["host"]["nodes"]))
         inc(d["pattern_nodes"], len(c["pattern"]["nodes"]))
         inc(d["attr_selection"], "/".join(c["na"]) + "|" + "/".join(c["ea"]))
@@ -453,6 +730,9 @@ def distribution(cases, obss):
 
 def shrink(case, fl):
     """Greedy: drop configurations, then host/pattern nodes and edges, while the oracle still fails."""
+    if case.get("kind") in ("history", "api"):
+        return case
+
     def fails(c):
         try:
             return bool(oracle(c))
@@ -485,6 +765,8 @@ def shrink(case, fl):
 
 
 def neighbours(case, rng):
+    if case.get("kind") in ("history", "api"):
+        return []
     out = []
     seen = set()
     for cfg in case["cfgs"]:
@@ -645,8 +927,238 @@ def _ordered_case(rng, kind, h, p, na, ea):
     return c
 
 
+# ---- round 3 populations: call interface, attribute selections, histories, degenerate values, sizes >= 10
+
+ATTR_SELECTIONS = [
+    (["charge", "element"], ["order"]),                       # permuted
+    (["element", "element", "charge"], ["order", "order"]),   # duplicates
+    (["charge"], ["order"]),                                  # reduced, no "element"
+    (["aromatic"], []),                                       # only an attribute that most nodes lack
+    (["element", "charge", "no_such_attribute"], ["order", "no_such_attribute"]),   # extended by absent names
+    ([], ["order"]), (["element"], []), ([], []),
+    (["hcount"], ["order"]),                                  # hcount also as an equality attribute
+    (["element", "charge", "aromatic", "hcount"], ["order", "standard_order"]),
+]
+
+
+def _gen_attrs(rng, n):
+    out = []
+    for k in range(n):
+        h, p, _, _ = _rand_pair(rng, hmax=7, pmax=3)
+        if rng.random() < 0.5:          # give the graphs the rarely used attributes, on some nodes / edges only
+            for g in (h, p):
+                for _, a in g["nodes"]:
+                    if rng.random() < 0.5:
+                        a["aromatic"] = rng.random() < 0.5
+                for _, _, a in g["edges"]:
+                    if rng.random() < 0.5:
+                        a["standard_order"] = rng.choice([0, 1, -1, 0.5])
+        na, ea = ATTR_SELECTIONS[k % len(ATTR_SELECTIONS)]
+        cfgs = [["all", None, None, False, False], ["comp", None, None, False, False], ["bt", None, None, True, False],
+                ["comp", None, None, True, True]]
+        out.append(dict(kind="attrs", host=h, pattern=p, na=list(na), ea=list(ea), cfgs=cfgs, vf2=None))
+    return out
+
+
+def _gen_styles(rng, n):
+    """The same requests spelled in every supported way; several spellings per case on the same objects."""
+    out = []
+    for k in range(n):
+        h, p, na, ea = _rand_pair(rng, hmax=6, pmax=3)
+        cfgs, styles = [], []
+        for st in STYLES:
+            cfg = [rng.choice(["all", "comp", "bt"]), rng.choice([None, None, 1, 2]), rng.choice([None, None, 2, 50]),
+                   rng.random() < 0.5, rng.random() < 0.3]
+            if st == "defaults":
+                cfg = rng.choice([["comp", None, None, True, False], ["comp", 1, None, True, False], ["bt", None, None, True, False],
+                                  ["comp", None, None, False, False], ["comp", None, 3, True, True]])
+            cfgs.append(cfg)
+            styles.append(st)
+        out.append(dict(kind="styles", host=h, pattern=p, na=na, ea=ea, cfgs=cfgs, styles=styles, vf2=None))
+    return out
+
+
+def _gen_api(rng, n):
+    spell = [None, ["str", "all"], ["str", "ALL"], ["str", "All"], ["str", "comp"], ["str", "COMP"], ["str", "cOmP"], ["str", "bt"],
+             ["str", "BT"], ["str", "Bt"], ["member", "all"], ["member", "comp"], ["member", "bt"], ["member", "partial"],
+             ["str", "partial"], ["str", "PARTIAL"], ["str", "component"], ["str", ""], ["str", "al"], ["str", "all "], ["str", "b t"],
+             ["str", "backtrack"], ["str", "ALLL"]]
+    out = []
+    for k in range(n):
+        h, p, na, ea = _rand_pair(rng, hmax=6, pmax=3)
+        calls = []
+        for j in range(8):
+            c = {}
+            sa = spell[(k * 8 + j) % len(spell)]
+            if sa is not None:
+                c["strategy"] = sa
+            if rng.random() < 0.4:
+                c["max_results"] = rng.choice([None, 0, 5000])       # order-insensitive values only (compared as multisets)
+            if rng.random() < 0.4:
+                c["strict_cc_count"] = rng.random() < 0.5
+            if rng.random() < 0.4:
+                c["threshold"] = rng.choice([None, 0, 1, 3, 5000])
+            if rng.random() < 0.3:
+                c["pre_filter"] = rng.random() < 0.5
+            calls.append(c)
+        out.append(dict(kind="api", host=h, pattern=p, na=na, ea=ea, calls=calls, vf2=None))
+    return out
+
+
+FALSY = [0, 0.0, "", None, False, -1, 10 ** 12, "0", 1, True, 1.0]
+
+
+def _gen_degenerate(rng, n):
+    empty = {"nodes": [], "edges": []}
+    out = []
+    cfgs = [["all", None, None, False, False], ["comp", None, None, True, False], ["comp", None, None, False, False],
+            ["bt", None, None, True, False], ["bt", None, None, False, True], ["all", 0, None, False, False],
+            ["comp", 1, None, False, False], ["bt", None, 0, False, False], ["all", None, 1, True, True]]
+
+    def add(h, p, na=NA_DEFAULT, ea=EA_DEFAULT):
+        out.append(dict(kind="degenerate", host=h, pattern=p, na=list(na), ea=list(ea), cfgs=cfgs, vf2=None))
+    one = lambda i, **a: {"nodes": [[i, dict(a)]], "edges": []}
+    # empty / single / larger-than-host
+    add(empty, empty)
+    add(one(1, element="C", charge=0, hcount=0), empty)
+    add(empty, one(1, element="C", charge=0, hcount=0))
+    add(one(1, element="C", charge=0, hcount=1), one(7, element="C", charge=0, hcount=1))
+    add(one(1, element="C", charge=0), one(1, element="C", charge=0, hcount=0))          # hcount absent on one side only
+    add(one(1, element="C", charge=0, hcount=0), one(1, element="C"))                    # charge absent on the pattern only
+    add(one(0, element="C", charge=0, hcount=0), one(0, element="C", charge=0, hcount=0))    # node id 0
+    while len(out) < n:
+        r = len(out) % 4
+        if r == 0:      # pattern larger than host / than every host component
+            h = _rand_mol(rng, rng.randint(1, 3), multi=rng.random() < 0.5)
+            p = _present(_rand_mol(rng, rng.randint(len(h["nodes"]) + 1, 5), multi=rng.random() < 0.5), rng)
+            add(G.shuffle_insertion(h, rng), p)
+        elif r == 1:    # falsy / odd attribute VALUES (compared with ==: 0 == 0.0 == False, "" != None, 1 == True)
+            h, p, _, _ = _rand_pair(rng, hmax=5, pmax=3)
+            for g in (h, p):
+                for _, a in g["nodes"]:
+                    a["element"] = rng.choice(FALSY)
+                    a["charge"] = rng.choice(FALSY)
+                    if rng.random() < 0.3:
+                        a["hcount"] = rng.choice([0, False, True, 1, 2])
+                for _, _, a in g["edges"]:
+                    a["order"] = rng.choice(FALSY)
+            add(h, p)
+        elif r == 2:    # attributes absent on SOME nodes / edges only (absent == None on both sides matches)
+            h, p, _, _ = _rand_pair(rng, hmax=6, pmax=3)
+            for g in (h, p):
+                for _, a in g["nodes"]:
+                    for k in ("element", "charge", "hcount"):
+                        if rng.random() < 0.35:
+                            a.pop(k, None)
+                for _, _, a in g["edges"]:
+                    if rng.random() < 0.4:
+                        a.pop("order", None)
+            add(h, p)
+        else:           # isolated nodes only / node ids 0 and large
+            k = rng.randint(1, 5)
+            h = {"nodes": [[i * 10 ** rng.randint(0, 6), dict(element=rng.choice("CO"), charge=0, hcount=rng.randint(0, 1))] for i in range(k)], "edges": []}
+            p = {"nodes": [[i, dict(element=rng.choice("CO"), charge=0, hcount=0)] for i in range(rng.randint(0, 3))], "edges": []}
+            add(h, p)
+    return out[:max(n, 7)]
+
+
+def _gen_big(rng, n):
+    """Hosts with 10-16 nodes (two-digit ids), patterns up to 4 nodes; plus a few hosts with >= 100 nodes and tiny patterns."""
+    out = []
+    cfgs = [["all", None, None, False, False], ["comp", None, None, False, False], ["bt", None, None, True, False],
+            ["comp", 3, None, False, False], ["all", None, 4, False, True]]
+    while len(out) < n:
+        h = _rand_mol(rng, rng.randint(10, 16), multi=rng.random() < 0.5)
+        h = G.relabel(h, {nid: 10 + 7 * i for i, (nid, _) in enumerate(h["nodes"])})
+        p = _planted(rng, h, rng.randint(2, 4), rng.random() < 0.4) if rng.random() < 0.7 else _present(_rand_mol(rng, rng.randint(1, 4)), rng)
+        out.append(dict(kind="big", host=G.shuffle_insertion(h, rng), pattern=p, na=NA_DEFAULT, ea=EA_DEFAULT, cfgs=cfgs, vf2=None))
+    for size in (100, 128):
+        # a long chain C-C-O-C-C-O... with a side component; pattern C-O / C.O
+        nodes = [[i, dict(element="O" if i % 3 == 2 else "C", charge=0, hcount=i % 2)] for i in range(1, size + 1)]
+        edges = [[i, i + 1, dict(order=1)] for i in range(1, size - 10)] + [[i, i + 1, dict(order=2)] for i in range(size - 8, size)]
+        h = {"nodes": nodes, "edges": edges}
+        for p in ({"nodes": [[1, dict(element="C", charge=0, hcount=0)], [2, dict(element="O", charge=0, hcount=0)]], "edges": [[1, 2, dict(order=1)]]},
+                  {"nodes": [[500, dict(element="O", charge=0, hcount=1)], [2, dict(element="O", charge=0, hcount=0)]], "edges": []}):
+            out.append(dict(kind="big100", host=G.shuffle_insertion(h, rng), pattern=p, na=NA_DEFAULT, ea=EA_DEFAULT,
+                            cfgs=[["all", None, None, False, False], ["comp", None, None, False, False], ["bt", 5, None, True, False]], vf2=None))
+    return out
+
+
+def _rand_edit(rng, g):
+    """An in-place edit of the JSON graph `g` (returned as an edit command); half of them keep node and edge counts."""
+    ids = [n for n, _ in g["nodes"]]
+    r = rng.random()
+    if ids and r < 0.30:
+        return ["set_node_attr", rng.choice(ids), rng.choice(["element", "charge", "hcount"]), None]   # value filled below
+    if g["edges"] and r < 0.45:
+        u, v, _ = rng.choice(g["edges"])
+        return ["set_edge_attr", u, v, "order", rng.choice([1, 2, 1.5])]
+    if ids and r < 0.55:
+        return ["del_node_attr", rng.choice(ids), rng.choice(["charge", "hcount"])]
+    if g["edges"] and r < 0.68:
+        u, v, _ = rng.choice(g["edges"])
+        return ["remove_edge", u, v]
+    if len(ids) >= 2 and r < 0.82:
+        u, v = rng.sample(ids, 2)
+        if not any({a, b} == {u, v} for a, b, _ in g["edges"]):
+            return ["add_edge", u, v, {"order": rng.choice([1, 2])}]
+    if len(ids) >= 2 and r < 0.91:
+        return ["remove_node", rng.choice(ids)]
+    return ["add_node", max(ids + [0]) + rng.randint(1, 3), dict(element=rng.choice("CON"), charge=0, hcount=rng.randint(0, 2))]
+
+
+def _gen_history(rng, n):
+    """2-5 searches on ONE engine object and ONE pair of graph objects, interleaved with in-place edits of the graphs,
+    changes of the attribute selection / strategy / limits, swapped arguments and caller-side mutation of earlier results."""
+    import copy
+    sel = [(NA_DEFAULT, EA_DEFAULT), (["element"], []), ([], []), (["element", "charge"], []), (["charge"], ["order"]),
+           (["element", "hcount"], ["order"]), (NA_DEFAULT, EA_DEFAULT)]
+    out = []
+    while len(out) < n:
+        h, p, _, _ = _rand_pair(rng, hmax=6, pmax=3)
+        cur = {"host": copy.deepcopy(h), "pattern": copy.deepcopy(p)}
+        steps, snaps = [], []
+        nsearch = rng.randint(2, 5)
+        mode = len(out) % 4       # 0: attribute selections vary, 1: edits in place, 2: mutate results + repeat, 3: everything
+        while len(snaps) < nsearch:
+            r = rng.random()
+            if snaps and mode in (1, 3) and r < 0.45:
+                side = rng.choice(["host", "pattern"])
+                e = _rand_edit(rng, cur[side])
+                if e[0] == "set_node_attr":
+                    e[3] = {"element": rng.choice(["C", "O", "N"]), "charge": rng.choice([0, 1]), "hcount": rng.randint(0, 2)}[e[2]]
+                if e[0] == "remove_node" and len(cur[side]["nodes"]) <= 1:
+                    continue
+                _edit_dict(cur[side], e)
+                steps.append(dict(op="edit", side=side, edit=e))
+                continue
+            if snaps and mode in (2, 3) and r < 0.6:
+                steps.append(dict(op="mutate_result", idx=rng.randint(0, len(snaps) - 1)))
+                continue
+            na, ea = rng.choice(sel) if mode in (0, 3) else (NA_DEFAULT, EA_DEFAULT)
+            cfg = [rng.choice(["all", "comp", "bt"]), None, rng.choice([None, None, None, 2, 0]),
+                   rng.random() < 0.5, rng.random() < 0.2]        # no max_results: a history step is compared as a multiset
+            swap = mode in (0, 3) and rng.random() < 0.2
+            if steps and steps[-1]["op"] in ("mutate_result", "edit") and rng.random() < 0.7:
+                # repeat an earlier request verbatim: a memo of results / of per-graph data would answer from stale state
+                prev = rng.choice([x for x in steps if x["op"] == "search"])
+                na, ea, cfg, swap = prev["na"], prev["ea"], list(prev["cfg"]), prev["swap"]
+            steps.append(dict(op="search", cfg=cfg, na=list(na), ea=list(ea), swap=swap, style=rng.choice(["kw", "instance", "enum", "upper"])))
+            Hh, Pp = (cur["pattern"], cur["host"]) if swap else (cur["host"], cur["pattern"])
+            snaps.append(dict(host=copy.deepcopy(Hh), pattern=copy.deepcopy(Pp), na=list(na), ea=list(ea), cfg=cfg))
+        out.append(dict(kind="history", host=h, pattern=p, na=snaps[0]["na"], ea=snaps[0]["ea"], steps=steps, snaps=snaps, vf2=None))
+    return out
+
+
 def gen_cases(tier, rng):
     cases = []
+    q = tier == "quick"
+    cases += _gen_api(rng, 40 if q else 400)
+    cases += _gen_attrs(rng, 150 if q else 3000)
+    cases += _gen_history(rng, 200 if q else 4000)
+    # these carry max_results settings: the result is a prefix in VF2 order, so they are order-sensitive cases (VF2 order recorded)
+    cases += [attach_vf2(c) for c in _gen_styles(rng, 40 if q else 400) + _gen_degenerate(rng, 160 if q else 3000)
+              + _gen_big(rng, 40 if q else 600)]
     cls = {n: _classes(n) for n in (1, 2, 3, 4)}
     # ---- exhaustive iso-class scope, order-insensitive
     hosts = cls[1] + cls[2] + cls[3] + (cls[4] if tier == "thorough" else [])
